@@ -127,6 +127,25 @@ pub const MEDIA: &[(&str, &[&str])] = &[
 /// names whose type the statement leaves open (recorded, compared for invariance only)
 pub const ODD_NAMES: &[&str] = &["noext", "two.dots.txt", "page.html.txt", "UPPER.TXT", "Mixed.Html", "\u{e9}t\u{e9}.txt", "archive.tar.gz", ".hidden", "trailingdot.", "a.b.c.d.css"];
 
+/// relative links in directories with ASCII and non-ASCII names, pointing beside and above themselves
+pub const REL_DIRS: &[&str] = &["plain-dir", "\u{444}\u{43e}\u{442}\u{43e}", "caf\u{e9}/\u{65e5}\u{672c}"];
+pub fn relative_links_tree() -> TreeSpec {
+    let mut t = TreeSpec::new();
+    t.file("reltargets/up.txt", &marker("reltargets/up.txt"));
+    for d in REL_DIRS {
+        let depth = d.split('/').count();
+        t.file(&format!("{}/real.txt", d), &marker(&format!("{}/real.txt", d)));
+        t.file(&format!("{}/inner/deep.html", d), &marker(&format!("{}/inner/deep.html", d)));
+        t.link(&format!("{}/beside.txt", d), "real.txt");
+        t.link(&format!("{}/dot-beside.txt", d), "./real.txt");
+        t.link(&format!("{}/below.html", d), "inner/deep.html");
+        t.link(&format!("{}/above.txt", d), &format!("{}reltargets/up.txt", "../".repeat(depth)));
+        t.link(&format!("{}/inner/back.txt", d), "../real.txt");
+        t.link(&format!("{}/\u{441}\u{441}\u{44b}\u{43b}\u{43a}\u{430}.txt", d), "real.txt");
+    }
+    t
+}
+
 pub fn media_tree() -> TreeSpec {
     let mut t = TreeSpec::new();
     for (ext, _) in MEDIA {
@@ -301,8 +320,12 @@ pub fn run(ctx: &mut Ctx) {
     for (k, v) in fidelity_tree(thorough).entries {
         tree.entries.insert(k, v);
     }
+    for (k, v) in relative_links_tree().entries {
+        tree.entries.insert(k, v);
+    }
     tree.build(&root);
     std::env::set_current_dir(&root).unwrap();
+    ctx.bound("relative_links", json!({"directories": REL_DIRS, "links": ["beside", "./beside", "below", "above (../ x depth)", "back from a sub-directory", "a link with a non-ASCII name"]}));
     ctx.bound("lookup", json!({"x": X_KINDS, "x.html": H_KINDS, "levels": 2, "name_shapes": SHAPES, "spellings": SPELLINGS}));
     ctx.bound("media", json!(format!("{} extensions x 2 stems x 2 directories, {} odd names", MEDIA.len(), ODD_NAMES.len())));
     ctx.bound("fidelity", json!({"sizes": SIZES, "patterns": PATTERNS, "thorough_adds": "1 MiB, 1 MiB+1, 16 MiB"}));
@@ -341,6 +364,14 @@ pub fn run(ctx: &mut Ctx) {
                 }
             }
         }
+        // A2. relative links
+        for (rel, node) in relative_links_tree().entries.iter() {
+            if let Node::Link(_) = node {
+                for suffix in ["", "?v=1"] {
+                    run_case(ctx, Case { part: "links".into(), entry, target: format!("/{}{}", rel, suffix) }, &mut types_by_ext);
+                }
+            }
+        }
         // B. media types
         for rel in media_tree().entries.keys() {
             if let Some(Node::File(_)) = tree.get(rel) {
@@ -375,6 +406,9 @@ pub fn replay(v: &Value) -> Vec<Failure> {
         tree.entries.insert(k, v);
     }
     for (k, v) in fidelity_tree(false).entries {
+        tree.entries.insert(k, v);
+    }
+    for (k, v) in relative_links_tree().entries {
         tree.entries.insert(k, v);
     }
     tree.build(&root);
